@@ -127,6 +127,16 @@ class Scatter:
                 if 'is not None' in txt and self.wparam and self.wparam in txt:
                     self.env[name] = Poly.sym('HAVE_W')
                     return
+            # extent of the third axis, 1 for a 2-D grid:  (grid.shape[2] if grid.ndim == 3 else 1)  -- its 3-D value is the extent
+            class _Ext(ast.NodeTransformer):
+                def visit_IfExp(s_, n):
+                    n = s_.generic_visit(n)
+                    if 'ndim' in unparse(n.test) and unparse(n.test).replace(' ', '').endswith('.ndim==3') and isinstance(n.orelse, ast.Constant) and n.orelse.value == 1:
+                        return n.body
+                    return n
+            if any(isinstance(x, ast.IfExp) for x in ast.walk(v)) and not isinstance(v, (ast.Compare, ast.BoolOp)):
+                from .srcmodel import clone_pos
+                v = _Ext().visit(clone_pos(v))
             try:
                 val = self._ev(v)
             except NotInDomain as e:
